@@ -2,6 +2,7 @@ import AcraModel.Wire.LenEnc
 import AcraModel.Wire.PgRow
 import AcraModel.Wire.MysqlRow
 import AcraModel.Wire.Bytea
+import AcraModel.Wire.PgBind
 /-! Driver ops for C12 (wire formats). -/
 namespace Driver.C12
 open AcraModel AcraModel.Wire
@@ -190,6 +191,54 @@ def handle (op : String) (args : List String) : Option String :=
       let types ← parseNats types
       let b ← ofHex b
       pure (match My.decodeBinRow types b with | some r => "some " ++ showRow r | none => "none")
+  -- PostgreSQL Parse
+  | "pg.parse.fields", [b] => do
+      let b ← ofHex b
+      pure ((Pg.newParsePacket b).render fun p =>
+        s!"{hexOf p.name} {hexOf p.query} {hexOf p.paramsNum} {if p.params.isEmpty then "_" else ",".intercalate (p.params.map hexOf)} {hexOf p.marshal} {p.length}")
+  | "pg.parse.replace", [s, q] => do
+      let s ← ofHex s
+      let q ← ofHex q
+      let r : Out Bytes := do
+        let (p, _) ← Pg.readClient true s
+        let p' ← Pg.replaceParseQuery p q
+        pure (Pg.marshal p')
+      pure (r.render hexOf)
+  | "pg.parse.enc", [name, query, oids] => do
+      let name ← ofHex name
+      let query ← ofHex query
+      let oids ← parseNats oids
+      pure (hexOf (Pg.encodeParse name query oids))
+  | "pg.parse.dec", [b] => do
+      let b ← ofHex b
+      pure (match Pg.decodeParse b with
+        | some (n, q, oids) => s!"some {hexOf n} {hexOf q} {if oids.isEmpty then "_" else ",".intercalate (oids.map toString)}"
+        | none => "none")
+  -- PostgreSQL Bind
+  | "pg.bind.fields", [b] => do
+      let b ← ofHex b
+      let showNats (xs : List Nat) : String := if xs.isEmpty then "_" else ",".intercalate (xs.map toString)
+      pure ((Pg.newBindPacket b).render fun p =>
+        s!"{hexOf p.portal} {hexOf p.statement} {showNats p.paramFormats} {showRow p.paramValues} {showNats p.resultFormats}")
+  | "pg.bind", [trs, s] => do
+      let trs ← parseTrs trs
+      let s ← ofHex s
+      let g : Nat → Bool → Option Bytes → Out (Option Bytes) := fun i _ v =>
+        match v with
+        | none => .ok none
+        | some d => (applyTrs trs i d).bind fun d' => .ok (some d')
+      let r : Out Bytes := do
+        let (p, _) ← Pg.readClient true s
+        let p' ← Pg.rewriteBind g p
+        pure (Pg.marshal p')
+      pure (r.render hexOf)
+  | "pg.bind.enc", [portal, stmt, pf, pv, rf] => do
+      let portal ← ofHex portal
+      let stmt ← ofHex stmt
+      let pf ← parseNats pf
+      let pv ← parseRow pv
+      let rf ← parseNats rf
+      pure (hexOf (Pg.encodeBind portal stmt pf pv rf))
   -- bytea text codecs
   | "bytea.octal.enc", [b] => do let b ← ofHex b; pure (hexOf (Bytea.encodeToOctal b))
   | "bytea.octal.dec", [b] => do
